@@ -63,6 +63,10 @@ INDUCTIVE = [
     'inductive-lemma: forall N N$i (N$i >= 0 -> (q(N) and N = N$i -> N$i >= 0 and q(N$i))).',
     'inductive-lemma(forward): forall N$i (N$i >= 1 -> (p(N) -> N != N$i or q(N$i))).',
     'inductive-lemma: forall N$i N (N$i >= 0 -> (s(N, N$i) -> s(N$i, N))).',
+    # the induction variable re-bound inside the body (negatively and positively placed) next to free occurrences: the base
+    # and step instances must leave the inner binder alone
+    'inductive-lemma: forall N$i (N$i >= 0 -> ((exists N$i q(N$i)) -> (N$i < 0 or exists X p(X)))).',
+    'inductive-lemma(forward): forall N$i (N$i >= 1 -> ((forall N$i (q(N$i) -> N$i > 3)) and q(N$i) -> exists N$i (p(N$i) and N$i > 3))).',
     'inductive-lemma: forall N$i (N$i >= 0 -> q(N$i)).',
     'inductive-lemma(forward): forall N$i (N$i >= 5 -> not q(N$i)).',
 ]
